@@ -479,8 +479,11 @@ def gen_case(ctx, kind=None, dyadic=False):
             "kernel": gen_kernel(r, kind, ps, scale, dyadic), "kind": kind}
     case["weight"] = gen_weight(r, pr, scale, dyadic)
     n = r.choice([0, 1, 1, 2, 3, 4, 6])
+    if r.random() < 0.012:
+        n = r.randint(257, 600)            # diagrams beyond a few hundred points (blocked / vectorised rewrites)
     bp = gen_points(r, br, pr, ps, rx, ry, dyadic, n)
     case["skew"] = r.random() < 0.6
+    case["decoy"] = r.random() < 0.3       # see run_real: a call on a look-alike imager right before the real one
     # the caller's diagram: (b, d) when skew, else the already converted (b, p)
     case["dgm"] = [[b, b + p] for b, p in bp] if case["skew"] else bp
     case["dyadic"] = dyadic
@@ -492,6 +495,21 @@ def gen_case(ctx, kind=None, dyadic=False):
 def run_real(case):
     """-> (status, image or error kind, path taken ('fast'/'general'/None), bpnts, ppnts, resolution)"""
     cnt = Counters()
+    if case.get("decoy"):
+        # a call on ANOTHER imager right before the real one, with the same lower-left corner, resolution, kernel and
+        # weight but twice the pixel size: state carried from one call to the next (caches keyed too coarsely) shows up
+        # as a wrong image of the real call
+        dc = dict(case)
+        ps = case["pixel_size"] * 2
+        b0, p0 = case["birth_range"][0], case["pers_range"][0]
+        nb = max(1, int(math.ceil((case["birth_range"][1] - b0) / case["pixel_size"] - 1e-9)))
+        npx = max(1, int(math.ceil((case["pers_range"][1] - p0) / case["pixel_size"] - 1e-9)))
+        dc.update(pixel_size=ps, birth_range=[b0, b0 + nb * ps], pers_range=[p0, p0 + npx * ps], decoy=False)
+        try:
+            with np.errstate(all="ignore"):
+                build_imager(dc, Counters()).transform(np.array(case["dgm"], dtype=np.float64).reshape(-1, 2), skew=case["skew"])
+        except Exception:                          # the decoy is only there to leave state behind
+            pass
     with Patched(cnt):
         pim = build_imager(case, cnt)
         bpn, ppn, res = [float(x) for x in pim._bpnts], [float(x) for x in pim._ppnts], tuple(int(x) for x in pim.resolution)
